@@ -22,7 +22,7 @@ pub static PROP: Prop = Prop {
 pub const FAULTS: [&str; 19] = [
     "arity-few", "arity-many", "none", "throw-str", "throw-num", "throw-foo", "bad-index", "type-mismatch", "missing-key", "assert", "type-hint", "unpack-size", "not-callable", "null-access", "in-interp", "in-list", "in-tuple", "in-map", "in-call-args",
 ];
-pub const CARRIERS: [&str; 10] = ["call", "each", "keep", "fold", "gen-tuple", "overload", "display", "lit-call", "cmp-overload", "seq"];
+pub const CARRIERS: [&str; 12] = ["call", "each", "keep", "fold", "gen-tuple", "overload", "display", "lit-call", "cmp-overload", "zip-right", "zip-left", "seq"];
 
 fn is_builder_fault(f: &str) -> bool {
     matches!(f, "in-interp" | "in-list" | "in-tuple" | "in-map")
@@ -186,15 +186,34 @@ impl<'a> EG<'a> {
             None
         };
         let r = self.fresh("r");
-        vec![
+        // the try expression's value may be assigned to a local that already exists and that the
+        // handlers read: they must still see the old value
+        let pre = self.s.chance(35);
+        let mut catches = catches;
+        let mut fin = fin;
+        if pre {
+            let show = E::Print(vec![E::Str(vec![SPart::Lit(format!("sees {r} ")), SPart::Expr(id(&r), None)])]);
+            for c in catches.iter_mut() {
+                c.body.insert(0, show.clone());
+            }
+            if let Some(f) = fin.as_mut() {
+                f.insert(0, show.clone());
+            }
+        }
+        let mut out_pre = vec![];
+        if pre {
+            out_pre.push(E::Assign(bx(id(&r)), None, bx(lit_str(&format!("old-{r}")))));
+        }
+        out_pre.extend(vec![
             E::Assign(bx(id(&r)), None, bx(E::Try(body, catches, fin))),
             E::Print(vec![E::Str(vec![SPart::Lit(format!("after {n} ")), SPart::Expr(id(&r), None), SPart::Lit(" ".into()), SPart::Expr(id("st"), None)])]),
             id(&r),
-        ]
+        ]);
+        out_pre
     }
 
     fn carrier_block(&mut self, depth: u32, under_try: u32, frames: u32, in_display: bool) -> Vec<E> {
-        let weights: [u32; 9] = if in_display { [24, 14, 8, 8, 12, 12, 8, 8, 6] } else { [18, 11, 7, 7, 11, 11, 11, 14, 10] };
+        let weights: [u32; 11] = if in_display { [24, 14, 8, 8, 12, 12, 8, 8, 6, 4, 4] } else { [18, 11, 7, 7, 11, 11, 11, 14, 10, 6, 6] };
         let c = self.s.weighted(&weights);
         let name = CARRIERS[c];
         self.flags.carriers.push(name);
@@ -260,6 +279,20 @@ impl<'a> EG<'a> {
                 body.extend(sub);
                 out.push(E::Assign(bx(id(&o)), None, bx(E::Map(vec![("@+".into(), E::Fn(vec![arg(&x)], None, body))]))));
                 out.push(E::Assign(bx(id(&r)), None, bx(E::Bin(Op::Add, bx(id(&o)), bx(E::Int(3))))));
+            }
+            "zip-right" | "zip-left" => {
+                // the callback-driven iterator is one side of a zip: its error must come through
+                let k = if self.s.chance(50) { 10 } else { 20 };
+                let x = self.fresh("x");
+                let body = vec![
+                    E::Print(vec![E::Str(vec![SPart::Lit(format!("{name} ")), SPart::Expr(id(&x), None)])]),
+                    E::If(vec![(E::Bin(Op::Eq, bx(id(&x)), bx(E::Int(k))), sub)], Some(vec![id(&x)])),
+                ];
+                out.push(E::Assign(bx(id(&f)), None, bx(E::Fn(vec![arg(&x)], None, body))));
+                let effectful = E::Call(bx(E::Dot(bx(E::Tuple(vec![E::Int(10), E::Int(20)])), "each".into())), vec![(id(&f), false)]);
+                let plain = E::Tuple(vec![E::Int(1), E::Int(2)]);
+                let zipped = if name == "zip-right" { E::Call(bx(E::Dot(bx(plain), "zip".into())), vec![(effectful, false)]) } else { E::Call(bx(E::Dot(bx(effectful), "zip".into())), vec![(plain, false)]) };
+                out.push(E::Assign(bx(id(&r)), None, bx(E::Call(bx(E::Dot(bx(zipped), "to_tuple".into())), vec![]))));
             }
             "lit-call" => {
                 // the call is an element of a literal that is under construction; when the sub-block
